@@ -114,6 +114,10 @@ func c01Case(c *mc.Ctx, cfg ref.Cfg, it ref.Item, v ref.V, vs string, undoc stri
 			c.Violation(pre+"unmarshal-error", err.Error()+" data="+hx(data))
 			return
 		}
+		if bad := badSliceHeader(out.Elem(), ""); bad != "" {
+			c.Violation(pre+"decoded-slice-header-corrupt", bad+" data="+hx(data))
+			return
+		}
 		got := ref.FromReflect(it.T, out.Elem())
 		want := ref.Expect(cfg, it.T, "", v, false)
 		if path, detail, differ := ref.Diff(it.T, want, got); differ {
